@@ -76,7 +76,16 @@ class FakeInspect:
 
 def install(mode):
     import experimaestro.core.objects as O
+    import experimaestro.core.types as T
+    from experimaestro.scheduler.dependencies import Dependency
+    from experimaestro.scheduler.base import Job
 
+    # CrossHair deep-copies ("realises") any object interpolated into an
+    # f-string; the dry-run messages interpolate dependencies / jobs, whose
+    # object graph cannot be deep-copied (types.Identifier.__getattr__ recurses
+    # on a half-built copy). These objects hold no symbolic state of interest.
+    for cls in (Dependency, Job, T.Identifier, T.Type):
+        cls.__ch_deep_realize__ = lambda self, memo: self
     O.inspect = FakeInspect()
     if mode in ("check", "reach"):
         O.hashlib = FakeHashlib
